@@ -1121,10 +1121,7 @@ class Interp(object):
 
   def ev_Set(self, node, st, ctx, k):
     def got(st2, vs):
-      d = {}
-      for v in vs:
-        d[self.models.hashkey(v)] = v
-      return k(st2, st2.alloc("set", set, d))
+      return self.models.new_set(self, vs, st2, ctx, k, node)
     return self.ev_list(node.elts, st, ctx, got)
 
   def ev_Dict(self, node, st, ctx, k):
@@ -1314,10 +1311,7 @@ class Interp(object):
 
   def ev_SetComp(self, node, st, ctx, k):
     def done(st2, vs):
-      d = {}
-      for v in vs:
-        d[self.models.hashkey(v)] = v
-      return k(st2, st2.alloc("set", set, d))
+      return self.models.new_set(self, vs, st2, ctx, k, node)
     return self.comprehension(node, node.elt, st, ctx, done)
 
   def ev_DictComp(self, node, st, ctx, k):
